@@ -223,7 +223,7 @@ def run(tier):
     model = Model()
     R = rng('C12', 'malformed')
     tmp = tempfile.mkdtemp(prefix='verif_c12_')
-    reps = 3 if tier == 'quick' else 25
+    reps = 8 if tier == 'quick' else 40
     try:
         runs = []
         for name, must_raise, mut in defects():
